@@ -26,6 +26,12 @@
      exit phase: cleanup() if still registered                                  (CAtexit)
      cleanup(): if not cleaned: cleaned = True; rmfile(pid); release noted locks
      handle_error(c): write failed marker c; cleanup(); sys.exit(1)
+     (with fixes/C10-2.diff, variant Guarded: the failure marker is written and the pid file removed only
+      by a runner that has every run lock in self.locks)
+
+   Second part of the file: TWO job processes for one job (two experiments launched it).  The first
+   holds the run lock and is in its body; the second performs what comes before `lock.acquire`, blocks
+   there, receives a signal and dies; then the first goes on (`double`).
 
    ctx says what happens to an exception raised at that point (by a signal handler): CTry = caught by
    run()'s own except clauses, CProp = leaves run() and reaches the exit phase, CAtexit = raised inside
@@ -105,26 +111,34 @@ Definition is_some {A} (o : option A) : bool := match o with Some _ => true | No
 Definition rmfile_failed : blk := when (fun s => is_some (failed s)) (emit RmFailed).
 Definition rmfile_pid : blk := when pid (emit RmPid).
 
+Inductive variant := Prefix | Fixed | Guarded.
+(* Prefix:  the code of the pinned commit (remove_signal_handlers always unregisters the exit callback);
+   Fixed:   with fixes/C10-1.diff (remove_cleanup is honoured) - the code of /repo 3854c75;
+   Guarded: with fixes/C10-2.diff as well (handle_error / cleanup touch the failure marker and the pid
+            file only when this runner has every run lock, `len(self.locks) == len(self.lockfiles)`). *)
+Definition guarded (v : variant) : bool := match v with Guarded => true | _ => false end.
+
+(* may this runner change the marker files and the pid file?  (literal code: always) *)
+Definition owner (v : variant) (s : st) : bool := negb (guarded v) || noted s.
+
 (* TaskRunner.cleanup *)
-Definition cleanup : blk :=
+Definition cleanup (v : variant) : blk :=
   when (fun s => negb (cleaned s))
-       (seq (emit SetCleaned) (seq rmfile_pid (when (fun s => noted s && lock s) (emit Unlock)))).
+       (seq (emit SetCleaned)
+            (seq (when (owner v) rmfile_pid) (when (fun s => noted s && lock s) (emit Unlock)))).
 
 (* TaskRunner.handle_error(code, _): the caller continues with SystemExit(1) *)
-Definition handle_error (c : Z) : blk := seq (emit (WriteFailed c)) cleanup.
+Definition handle_error (v : variant) (c : Z) : blk :=
+  seq (when (owner v) (emit (WriteFailed c))) (cleanup v).
 
 (* the interpreter's exit phase *)
-Definition exit_phase : blk := when atexit cleanup.
+Definition exit_phase (v : variant) : blk := when atexit (cleanup v).
 
 (* ---------------------------------------------------------------- TaskRunner.run *)
 Inductive outcome := OOk | ORaise | OExit (c : Z) | OBase.
 (* the body returns | raises an Exception | calls sys.exit(c) | raises another BaseException *)
 Definition success (o : outcome) : bool :=
   match o with OOk => true | OExit c => (c =? 0)%Z | _ => false end.
-
-Inductive variant := Prefix | Fixed.
-(* Prefix: the code as found (remove_signal_handlers always unregisters the exit callback);
-   Fixed:  with fixes/C10-1.diff (remove_cleanup is honoured).                              *)
 
 Inductive ctx := CProp | CTry | CAtexit.
 
@@ -138,10 +152,10 @@ Definition after_body (v : variant) (o : outcome) : tblk :=
   match o with
   | OOk =>
       tseq (at_ CTry (seq (emits [RestoreTerm; RestoreInt])
-                          (match v with Prefix => emit UnregAtexit | Fixed => nop end)))
+                          (match v with Prefix => emit UnregAtexit | _ => nop end)))
            (at_ CProp (emit TouchDone))                       (* sys.exit(0); except SystemExit, code 0 *)
-  | ORaise => at_ CProp (handle_error 1)                      (* except Exception *)
-  | OExit c => if (c =? 0)%Z then at_ CProp (emit TouchDone) else at_ CProp (handle_error c)
+  | ORaise => at_ CProp (handle_error v 1)                      (* except Exception *)
+  | OExit c => if (c =? 0)%Z then at_ CProp (emit TouchDone) else at_ CProp (handle_error v c)
   | OBase => fun _ => []                                      (* no clause catches it *)
   end.
 
@@ -150,7 +164,7 @@ Definition runner (v : variant) (o : outcome) : tblk :=
  (tseq (at_ CTry (emits [Lock; NoteLock; TestDone]))
  (tseq (fun s => if done s then []
                  else tseq (at_ CTry (seq rmfile_failed (body o))) (after_body v o) s)
-       (at_ CAtexit exit_phase))).
+       (at_ CAtexit (exit_phase v)))).
 
 (* ---------------------------------------------------------------- deaths *)
 Inductive sig := SKill | STerm | SInt.
@@ -159,21 +173,21 @@ Definition handled (g : sig) (s : st) : bool :=
   match g with SKill => false | STerm => hterm s | SInt => hint s end.
 
 (* what the process still does once signal g has arrived at a point of context c *)
-Definition on_signal (g : sig) (c : ctx) : blk := fun s =>
+Definition on_signal (v : variant) (g : sig) (c : ctx) : blk := fun s =>
   match g with
   | SKill => []
   | _ =>
     if handled g s then
       (* handle_error(signum, frame), then SystemExit(1) is raised where the signal arrived *)
-      seq (handle_error (signal_code g))
+      seq (handle_error v (signal_code g))
           (match c with
-           | CTry => seq (handle_error 1) exit_phase      (* except SystemExit: code 1 *)
-           | CProp => exit_phase
+           | CTry => seq (handle_error v 1) (exit_phase v)  (* except SystemExit: code 1 *)
+           | CProp => exit_phase v
            | CAtexit => nop
            end) s
     else
       match g with
-      | SInt => match c with CAtexit => [] | _ => exit_phase s end   (* KeyboardInterrupt *)
+      | SInt => match c with CAtexit => [] | _ => exit_phase v s end   (* KeyboardInterrupt *)
       | _ => []                                                        (* default action: killed *)
       end
   end.
@@ -199,7 +213,7 @@ Definition effects (v : variant) (o : outcome) (dth : option death) (d : dir) : 
   | None => trace v o d
   | Some (g, k, c) =>
       let pre := firstn k (trace v o d) in
-      pre ++ on_signal g c (run_effs pre (boot d))
+      pre ++ on_signal v g c (run_effs pre (boot d))
   end.
 
 Definition launch (v : variant) (d : dir) (o : outcome) (dth : option death) : dir :=
@@ -212,8 +226,92 @@ Definition history (v : variant) (d : dir) (l : list (outcome * option death)) :
 Definition Inv (d : dir) : Prop :=
   (d_done d = true -> 1 <= d_completed d) /\ d_lock d = false /\ d_completed d <= d_runs d.
 
+(* the part of Inv that is derived from the code (the middle conjunct of Inv is the assumption made in `die`) *)
+Definition Truthful (d : dir) : Prop :=
+  (d_done d = true -> 1 <= d_completed d) /\ d_completed d <= d_runs d.
+
 (* the death arrives while the body runs: the next effect of the undisturbed run is BodyEnd *)
 Definition in_body (v : variant) (o : outcome) (d : dir) (k : nat) : Prop :=
   exists b, nth_error (trace v o d) k = Some (BodyEnd b).
 
 Definition term_signal (g : sig) : Prop := g = STerm \/ g = SInt.
+
+(* ================================================================ two processes for one job
+   Two experiments launched the same job (forced double launch: both found neither marker nor pid
+   file).  Process H got the run lock and is in its body.  Process W - same script, same directory - is
+   started by the second scheduler, which rewrites <name>.pid; W does everything that precedes
+   `lock.acquire(blocking=True)` and blocks there.  A signal sent to W at any of these points is
+   handled by a runner that does NOT hold the run lock.                                               *)
+
+(* the run up to the moment the body has begun, and the rest of it (runner_split in the proofs:
+   for a directory without success marker, runner = upto_body then from_body) *)
+Definition upto_body : tblk :=
+  tseq (at_ CProp (emits [RegAtexit; SetTerm; SetInt]))
+ (tseq (at_ CTry (emits [Lock; NoteLock; TestDone]))
+       (at_ CTry (seq rmfile_failed (emit BodyBegin)))).
+Definition from_body (v : variant) (o : outcome) : tblk :=
+  tseq (at_ CTry (emit (BodyEnd (success o))))
+ (tseq (after_body v o) (at_ CAtexit (exit_phase v))).
+
+(* what a runner does before it asks for the lock; it cannot get past this point while H holds the lock *)
+Fixpoint before_lock (l : list eff) : list eff :=
+  match l with
+  | [] => []
+  | Lock :: _ => []
+  | e :: l' => e :: before_lock l'
+  end.
+
+(* another process enters the same directory: the files as they are, its own fresh private flags;
+   its scheduler has just written the pid file *)
+Definition enter (s : st) : st :=
+  {| done := done s; failed := failed s; pid := true; lock := lock s; runs := runs s;
+     completed := completed s; atexit := false; hterm := false; hint := false; cleaned := false;
+     noted := false |}.
+(* back to process h: its private flags, the files as the other process w left them *)
+Definition back (h w : st) : st :=
+  {| done := done w; failed := failed w; pid := pid w; lock := lock w; runs := runs w;
+     completed := completed w; atexit := atexit h; hterm := hterm h; hint := hint h;
+     cleaned := cleaned h; noted := noted h |}.
+
+(* the directory as an observer sees it while processes are alive *)
+Definition snap (s : st) : dir :=
+  {| d_done := done s; d_failed := failed s; d_pid := pid s; d_lock := lock s; d_runs := runs s;
+     d_completed := completed s |}.
+
+(* H when its body has begun *)
+Definition at_body (d : dir) : st := run_effs (map snd (upto_body (boot d))) (boot d).
+
+(* the whole life of W, started in state s (= enter ...): k effects of its run up to the lock, then
+   signal g at a point of context c *)
+Definition waiter_effects (v : variant) (o : outcome) (dw : death) (s : st) : list eff :=
+  let '(g, k, c) := dw in
+  let pre := firstn k (before_lock (map snd (runner v o s))) in
+  pre ++ on_signal v g c (run_effs pre s).
+
+(* the state of W when it is gone *)
+Definition waiter_end (v : variant) (d : dir) (ow : outcome) (dw : death) : st :=
+  let w0 := enter (at_body d) in run_effs (waiter_effects v ow dw w0) w0.
+
+(* the directory right after W's death, H still in its body *)
+Definition double_mid (v : variant) (d : dir) (ow : outcome) (dw : death) : dir :=
+  snap (waiter_end v d ow dw).
+
+(* ... and when H is gone too.  dh: how H ends (None: by itself; Some (g, k, c): signal g when k
+   effects of the REST of its run, from the end of the body on, are done) - both processes may die *)
+Definition double_effects (v : variant) (oh : outcome) (dh : option death) (h : st) : list eff :=
+  let rest := map snd (from_body v oh h) in
+  match dh with
+  | None => rest
+  | Some (g, k, c) => let pre := firstn k rest in pre ++ on_signal v g c (run_effs pre h)
+  end.
+
+Definition double (v : variant) (d : dir) (oh ow : outcome) (dw : death) (dh : option death) : dir :=
+  let h := back (at_body d) (waiter_end v d ow dw) in
+  die (run_effs (double_effects v oh dh h) h).
+
+(* the same death of H counted from the start of its run *)
+Definition shift (d : dir) (dh : option death) : option death :=
+  match dh with
+  | None => None
+  | Some (g, k, c) => Some (g, length (upto_body (boot d)) + k, c)
+  end.
